@@ -43,6 +43,8 @@ use vharness::util::*;
 
 const HEADER: &str = "From RV Require Import Corr.C05.\nLocal Open Scope string_scope.\nLocal Open Scope N_scope.\nLocal Open Scope list_scope.";
 const MAXBUF: usize = 1 << 20;
+/// set in the thorough tier: one transaction in fifty queues 100-300 commands
+static THOROUGH: std::sync::atomic::AtomicBool = std::sync::atomic::AtomicBool::new(false);
 
 /// a stream whose reads wait for the next chunk on a channel; writes are recorded
 struct ChanStream {
@@ -191,7 +193,7 @@ fn run(env: &Env, shards: usize, sends: &[SendPlan]) -> Ran {
             let mut replies = Vec::new();
             for (si, sp) in sends.iter().enumerate() {
                 let c = sp.conn;
-                if c == 2 {
+                if c >= 2 {
                     let ms: u64 = std::str::from_utf8(&sp.bytes).unwrap().parse().unwrap();
                     tokio::time::sleep(std::time::Duration::from_millis(ms)).await;
                     replies.push(Vec::new());
@@ -243,17 +245,25 @@ fn run_executor(sends: &[SendPlan]) -> Ran {
     let r = catch_unwind(AssertUnwindSafe(|| {
         let mut ex = CommandExecutor::new();
         let mut clock = 0u64;
+        let mut readonly_clock = false;
         let mut replies = Vec::new();
         for sp in sends {
-            if sp.conn == 2 {
+            if sp.conn >= 2 {
+                // 2: time passes and reaches the executor through set_time (evicts expired keys);
+                // 3: from now on it reaches it through update_time_readonly (no eviction)
                 clock += std::str::from_utf8(&sp.bytes).unwrap().parse::<u64>().unwrap();
+                readonly_clock = sp.conn == 3;
                 replies.push(Vec::new());
                 continue;
             }
             let mut b = bytes::BytesMut::from(&sp.bytes[..]);
             let v = RespCodec::parse(&mut b).expect("generated frames decode").expect("generated frames are complete");
             let cmd = Command::from_resp_zero_copy(&v).expect("generated frames are commands");
-            ex.set_time(redis_sim::simulator::VirtualTime::from_millis(clock));
+            if readonly_clock {
+                ex.update_time_readonly(redis_sim::simulator::VirtualTime::from_millis(clock));
+            } else {
+                ex.set_time(redis_sim::simulator::VirtualTime::from_millis(clock));
+            }
             let reply = ex.execute(&cmd);
             replies.push(RespParser::encode(&reply));
         }
@@ -267,14 +277,14 @@ fn run_executor(sends: &[SendPlan]) -> Ran {
 
 /// one write per command
 fn singles(steps: &[(usize, Vec<u8>)]) -> Vec<SendPlan> {
-    steps.iter().map(|s| SendPlan { conn: s.0, bytes: s.1.clone(), completes: if s.0 == 2 { 0 } else { 1 }, oracle_only: false }).collect()
+    steps.iter().map(|s| SendPlan { conn: s.0, bytes: s.1.clone(), completes: if s.0 >= 2 { 0 } else { 1 }, oracle_only: false }).collect()
 }
 /// split what the writes were answered with into one reply per command; None = some write was
 /// answered with a different number of replies than commands it completed
 fn per_command(sends: &[SendPlan], answered: &[Vec<u8>]) -> Option<Vec<Vec<u8>>> {
     let mut v = Vec::new();
     for (sp, a) in sends.iter().zip(answered.iter()) {
-        if sp.conn == 2 {
+        if sp.conn >= 2 {
             v.push(Vec::new());
             continue;
         }
@@ -324,7 +334,7 @@ enum Ty {
     ZSet,
 }
 const TYS: [Ty; 6] = [Ty::None, Ty::Str, Ty::List, Ty::Hash, Ty::Set, Ty::ZSet];
-const VALS: [&[u8]; 5] = [b"a", b"b", b"10", b"", b"x\r\ny"];
+const VALS: [&[u8]; 6] = [b"a", b"b", b"10", b"", b"x\r\ny", b"9223372036854775807"];
 
 /// a write that creates key k with type t (on an absent key)
 fn create(k: &[u8], t: Ty, rng: &mut Rng) -> Option<Vec<u8>> {
@@ -339,9 +349,10 @@ fn create(k: &[u8], t: Ty, rng: &mut Rng) -> Option<Vec<u8>> {
     })
 }
 /// a write by B on key k (whatever it holds): (label, frames)
-fn modify(k: &[u8], rng: &mut Rng) -> (String, Vec<Vec<u8>>) {
+fn modify(k: &[u8], rng: &mut Rng, own_tx: bool) -> (String, Vec<Vec<u8>>) {
     let v = *VALS.choose(rng).unwrap();
-    match rng.gen_range(0..12) {
+    match rng.gen_range(0..(if own_tx { 14 } else { 12 })) {
+        12 | 13 => ("transaction-of-its-own".into(), vec![enc(&[b"MULTI"]), enc(&[b"SET", k, v]), enc(&[b"INCR", k]), enc(&[if rng.gen_bool(0.8) { b"EXEC".as_ref() } else { b"DISCARD" }])]),
         0 => ("set".into(), vec![enc(&[b"SET", k, v])]),
         1 => ("append".into(), vec![enc(&[b"APPEND", k, b"z"])]),
         2 => ("incr".into(), vec![enc(&[b"INCR", k])]),
@@ -431,7 +442,7 @@ type Step = (usize, Vec<u8>, Role, String);
 /// commands pushed since the last call travel one per write
 fn flush_singles(sends: &mut Vec<SendPlan>, steps: &[Step], covered: &mut usize) {
     for s in &steps[*covered..] {
-        sends.push(SendPlan { conn: s.0, bytes: s.1.clone(), completes: if s.0 == 2 { 0 } else { 1 }, oracle_only: s.3 == "exact" });
+        sends.push(SendPlan { conn: s.0, bytes: s.1.clone(), completes: if s.0 >= 2 { 0 } else { 1 }, oracle_only: s.3 == "exact" });
     }
     *covered = steps.len();
 }
@@ -521,7 +532,7 @@ fn gen_scenario(keys: &[Vec<u8>], rng: &mut Rng, out: &mut Out) -> Scenario {
             // in a deadline scenario key 0 changes by expiry only (nobody rewrites or deletes it: DEL of an
             // expired key that no reader has dropped yet answers 1 in the code, which the mini backend does not follow)
             let i = if ttl { rng.gen_range(1..nk) } else if !watched.is_empty() && rng.gen_bool(0.7) { *watched.choose(rng).unwrap() } else { rng.gen_range(0..nk) };
-            let (l, fs) = modify(&keys[i], rng);
+            let (l, fs) = modify(&keys[i], rng, true);
             out.count(&format!("b_write:{}", l));
             for f in fs {
                 steps.push((1, f, Role::Between, l.clone()));
@@ -628,7 +639,7 @@ fn gen_scenario(keys: &[Vec<u8>], rng: &mut Rng, out: &mut Out) -> Scenario {
             }
         }
         // body
-        let nb = rng.gen_range(0..6);
+        let nb = if THOROUGH.load(std::sync::atomic::Ordering::Relaxed) && rng.gen_range(0..50) == 0 { out.count("body:100-300_commands"); rng.gen_range(100..300) } else { rng.gen_range(0..6) };
         for _ in 0..nb {
             let k = if ttl { keys[1..].choose(rng).unwrap() } else { keys.choose(rng).unwrap() };
             let v = *VALS.choose(rng).unwrap();
@@ -735,7 +746,16 @@ fn gen_exec_scenario(keys: &[Vec<u8>], rng: &mut Rng, out: &mut Out) -> Scenario
     let ttl = rng.gen_range(0..6) == 0;
     let ttl_px: &[u8] = if rng.gen_bool(0.75) { b"40" } else { b"60000" };
     let ttl_pause_in_multi = rng.gen_bool(0.5);
+    // how the clock reaches the executor after the pause: 2 = set_time (evicts), 3 = update_time_readonly
+    let pause_kind: usize = if rng.gen_bool(0.4) { 3 } else { 2 };
+    // late watch: the deadline passes BEFORE the key is watched, the clock moves without eviction, and
+    // the key is read only after the WATCH (its fingerprint "at WATCH" is taken right after it)
+    let late_watch = ttl && rng.gen_range(0..3) == 0;
+    if late_watch {
+        out.count("x:ttl:watch_after_the_deadline_before_any_eviction");
+    }
     if ttl {
+        out.count(&format!("x:ttl:clock_through:{}", if late_watch || pause_kind == 3 { "update_time_readonly" } else { "set_time" }));
         out.count(&format!("x:ttl:px{}", String::from_utf8_lossy(ttl_px)));
         steps.push((1, enc(&[b"DEL", &keys[0]]), Role::Setup, "ttl-setup".into()));
         steps.push((1, enc(&[b"SET", &keys[0], b"ttl-value", b"PX", ttl_px]), Role::Setup, "set-px".into()));
@@ -745,7 +765,7 @@ fn gen_exec_scenario(keys: &[Vec<u8>], rng: &mut Rng, out: &mut Out) -> Scenario
         let mut watched: Vec<usize> = Vec::new();
         let wr = |steps: &mut Vec<Step>, rng: &mut Rng, out: &mut Out, watched: &Vec<usize>| {
             let i = if ttl { rng.gen_range(1..nk) } else if !watched.is_empty() && rng.gen_bool(0.7) { *watched.choose(rng).unwrap() } else { rng.gen_range(0..nk) };
-            let (l, fs) = modify(&keys[i], rng);
+            let (l, fs) = modify(&keys[i], rng, false);
             out.count(&format!("x:foreign_write:{}", l));
             for f in fs {
                 steps.push((1, f, Role::Between, l.clone()));
@@ -771,14 +791,24 @@ fn gen_exec_scenario(keys: &[Vec<u8>], rng: &mut Rng, out: &mut Out) -> Scenario
             let mut distinct = ks.clone();
             distinct.sort();
             distinct.dedup();
-            for &i in &distinct {
-                push_probes(&mut steps, keys, i, &|i, j| Role::ProbeW(i, j), "probe");
+            let late = late_watch && w == 0;
+            if late {
+                ks.truncate(1);
+                distinct = vec![0];
+                steps.push((3, b"90".to_vec(), Role::Sleep(90), "time-passes".into()));
+            } else {
+                for &i in &distinct {
+                    push_probes(&mut steps, keys, i, &|i, j| Role::ProbeW(i, j), "probe");
+                }
             }
             let mut args: Vec<&[u8]> = vec![b"WATCH"];
             for &i in &ks {
                 args.push(&keys[i]);
             }
             steps.push((0, enc(&args), Role::Watch(ks.clone()), "watch".into()));
+            if late {
+                push_probes(&mut steps, keys, 0, &|i, j| Role::ProbeW(i, j), "probe");
+            }
             for k in distinct {
                 if !watched.contains(&k) {
                     watched.push(k);
@@ -798,8 +828,8 @@ fn gen_exec_scenario(keys: &[Vec<u8>], rng: &mut Rng, out: &mut Out) -> Scenario
                 wr(&mut steps, rng, out, &watched);
             }
         }
-        if ttl && !ttl_pause_in_multi {
-            steps.push((2, b"90".to_vec(), Role::Sleep(90), "time-passes".into()));
+        if ttl && !ttl_pause_in_multi && !late_watch {
+            steps.push((pause_kind, b"90".to_vec(), Role::Sleep(90), "time-passes".into()));
         }
         // nothing but time can change between MULTI and EXEC (every command is queued): the EXEC-time
         // fingerprints are taken now; the deadline key's fingerprint is taken right after EXEC
@@ -807,7 +837,7 @@ fn gen_exec_scenario(keys: &[Vec<u8>], rng: &mut Rng, out: &mut Out) -> Scenario
             push_probes(&mut steps, keys, i, &|i, j| Role::ProbeE(i, j), "probe");
         }
         steps.push((0, enc(&[b"MULTI"]), Role::Multi, "multi".into()));
-        let nb = rng.gen_range(0..6);
+        let nb = if THOROUGH.load(std::sync::atomic::Ordering::Relaxed) && rng.gen_range(0..50) == 0 { out.count("body:100-300_commands"); rng.gen_range(100..300) } else { rng.gen_range(0..6) };
         out.count(&format!("x:body_commands:{}", nb));
         for _ in 0..nb {
             let k = if ttl { keys[1..].choose(rng).unwrap() } else { keys.choose(rng).unwrap() };
@@ -836,8 +866,8 @@ fn gen_exec_scenario(keys: &[Vec<u8>], rng: &mut Rng, out: &mut Out) -> Scenario
             out.count(&format!("x:body:{}", label));
             steps.push((0, frame, Role::Body(queued), label.into()));
         }
-        if ttl && ttl_pause_in_multi {
-            steps.push((2, b"90".to_vec(), Role::Sleep(90), "time-passes".into()));
+        if ttl && ttl_pause_in_multi && !late_watch {
+            steps.push((pause_kind, b"90".to_vec(), Role::Sleep(90), "time-passes".into()));
         }
         if rng.gen_range(0..7) == 0 {
             steps.push((0, enc(&[b"DISCARD"]), Role::Discard, "discard".into()));
@@ -871,6 +901,7 @@ fn main() {
         metrics: Arc::new(Metrics::new(&DatadogConfig::from_env())),
     };
     let keys = key_alphabet();
+    THOROUGH.store(args.n >= 10000, std::sync::atomic::Ordering::Relaxed);
     let mut out = Out::new(&args.out, "C05", args.shards, HEADER);
     out.nontrivial_rule = "a scenario counts when client A reached EXEC or DISCARD inside MULTI with a non-empty body or a non-empty watch list; distinct by (shards, steps, replies)".into();
     for i in 0..args.n {
@@ -889,7 +920,7 @@ fn main() {
         let got = runner(&sc.sends);
         out.impl_checks += 1;
         let descr = |replies: &[Vec<u8>]| -> Vec<String> {
-            sc.steps.iter().enumerate().filter(|(_, s)| !matches!(s.2, Role::DumpBefore(..) | Role::Dump(..) | Role::ProbeW(..) | Role::ProbeE(..))).map(|(j, s)| format!("{} {:?} -> {:?}", if s.0 == 0 { "A" } else if s.0 == 1 { "B" } else { "pause ms" }, String::from_utf8_lossy(&s.1), replies.get(j).map(|r| String::from_utf8_lossy(r).to_string()))).collect()
+            sc.steps.iter().enumerate().filter(|(_, s)| !matches!(s.2, Role::DumpBefore(..) | Role::Dump(..) | Role::ProbeW(..) | Role::ProbeE(..))).map(|(j, s)| format!("{} {:?} -> {:?}", if s.0 == 0 { "A" } else if s.0 == 1 { "B" } else if s.0 == 2 { "pause ms" } else { "pause ms (clock then moves through update_time_readonly)" }, String::from_utf8_lossy(&s.1), replies.get(j).map(|r| String::from_utf8_lossy(r).to_string()))).collect()
         };
         let answered = match got {
             Ran::Ok(r) => r,
@@ -912,7 +943,7 @@ fn main() {
             tbl.len() - 1
         };
         // (1, i) = A writes tbl[i]; (0, i) = B writes tbl[i]; (2, ms) = a pause
-        let step_ix: Vec<(usize, usize)> = sc.sends.iter().filter(|sp| !sp.oracle_only).map(|sp| if sp.conn == 2 { (2, std::str::from_utf8(&sp.bytes).unwrap().parse().unwrap()) } else { (if sp.conn == 0 { 1 } else { 0 }, ix(&sp.bytes, &mut tbl)) }).collect();
+        let step_ix: Vec<(usize, usize)> = sc.sends.iter().filter(|sp| !sp.oracle_only).map(|sp| if sp.conn >= 2 { (sp.conn, std::str::from_utf8(&sp.bytes).unwrap().parse().unwrap()) } else { (if sp.conn == 0 { 1 } else { 0 }, ix(&sp.bytes, &mut tbl)) }).collect();
         let reply_ix: Vec<usize> = sc.sends.iter().zip(answered.iter()).filter(|(sp, _)| !sp.oracle_only).map(|(_, r)| ix(r, &mut tbl)).collect();
         let term = format!("({} {} {} {} false)", if xl { "KXTx" } else { "KTx" }, clist(tbl.iter(), |b| chex(b)), clist(step_ix.iter(), |s| format!("({}, {})", s.0, s.1)), clist(reply_ix.iter(), |r| r.to_string()));
         let canon = format!("{}{}", shards, sc.sends.iter().zip(answered.iter()).map(|(s, r)| format!("{}{}{}", s.conn, hex(&s.bytes), hex(r))).collect::<String>());
